@@ -232,3 +232,61 @@ def variants(world, tier="quick", only=None):
     if only:
         out = [v for v in out if any(o in v.name for o in only)]
     return out
+
+
+class BvSortInternVariant(Variant):
+    """TypeManager.BVType(w) on a table holding one bit-vector sort of an arbitrary positive width: a non-positive width is an
+    error and leaves the table as it was (asking again fails again); a positive width returns THE sort of that width - the
+    stored one or a new one of exactly that width, which is then stored."""
+    prop_ids = ("C03", "C15")
+    replay_kind = "sort-identity"
+
+    def __init__(self, world, positive):
+        self.world, self.positive = world, positive
+        self.qualname = "pysmt.typing.TypeManager.BVType"
+        self.name = "sorts:bit-vector-width[%s]" % ("positive" if positive else "non-positive")
+
+    def setup(self, ex):
+        from pyvc.symex import ClassRef, Obj, DictVal
+        W = self.world
+        for q in [q for q in list(W.contracts) + list(W.builtins) if str(q).startswith("new:pysmt.typing.")]:
+            W.contracts.pop(q, None)
+        I_ = z3.IntSort()
+        self.w0 = z3.Const("stored_width", I_)
+        ex.assume(self.w0 >= 1)
+        self.t0 = Obj("pysmt.typing._BVType", {"_width": self.w0, "basename": None, "args": None, "arity": 0, "custom_type": False}, tag="stored-sort")
+        self.table = DictVal([[self.w0, self.t0]])
+        self.tm = Obj("pysmt.typing.TypeManager", {"_bv_types": self.table}, tag="type-manager")
+        self.w = z3.Const("width", I_)
+        ex.assume(self.w >= 1 if self.positive else self.w <= 0)
+        fi = W.repo.method("pysmt.typing.TypeManager", "BVType")
+        return W.wrap_func(fi, fi.module, bound=self.tm), [self.w], {}
+
+    def check(self, ex, outcome):
+        from pyvc.symex import Obj
+        kind, r = outcome
+        items = self.table.items
+        if not self.positive:
+            same = len(items) == 1 and items[0][1] is self.t0
+            return [("non-positive-width-is-an-error", z3.BoolVal(kind == "raise")),
+                    ("table-left-as-it-was", z3.BoolVal(bool(same)))]
+        if kind == "raise":
+            return [("no-exception", z3.BoolVal(False))]
+        if not isinstance(r, Obj):
+            return [("returns-a-sort-object", z3.BoolVal(False))]
+        wr = r.fields.get("_width")
+        wr = wr if is_z3(wr) else z3.IntVal(wr)
+        goals = [("sort-of-exactly-that-width", wr == self.w),
+                 ("stored-sort-reused-for-its-width", z3.Implies(self.w == self.w0, z3.BoolVal(r is self.t0))),
+                 ("sort-is-in-the-table-afterwards", z3.BoolVal(any(v is r for _, v in items)))]
+        return goals
+
+
+_base_variants3c = variants
+
+
+def variants(world, tier="quick", only=None):
+    out = _base_variants3c(world, tier, None) + [BvSortInternVariant(world, True), BvSortInternVariant(world, False)]
+    if only:
+        out = [v for v in out if any(o in v.name for o in only)]
+    return out
